@@ -295,6 +295,22 @@ def r3(F, R):
     R.floor(6)
 
 
+def _depends_on_site(F, body, op, site, bodies, depth=0):
+    """Does `op` depend on the call at `site`, following helper parameters (async fn: coroutine captures) to call sites?"""
+    ds = A.deep_slice(F, body, [op])
+    if any(st == site for st, _ in ds.calls):
+        return True
+    if depth >= 3:
+        return False
+    for key, pi in ds.root_params:
+        root = F.bodies.get(key)
+        for fb in bodies:
+            for s, t in fb.calls():
+                if F.callee_body(t, fb.crate) is root and pi - 1 < len(t["args"]) and _depends_on_site(F, fb, t["args"][pi - 1], site, bodies, depth + 1):
+                    return True
+    return False
+
+
 def r4(F, R):
     _, _, enq = role_enqueue(F)
     # with_deadline / without_deadline roles: fns building RetryOptionsWithDeadline
@@ -322,10 +338,13 @@ def r4(F, R):
     R.check(stamp(with_d) == {"Some"}, "with-deadline-stamps-now", with_d, "after.map(|at| (at, Some(now)))", f"with_deadline stamps {sorted(stamp(with_d))}")
     R.check(stamp(without_d) == {"None"}, "without-deadline-stamps-none", without_d, "after.map(|at| (at, None))", f"without_deadline stamps {sorted(stamp(without_d))}")
     # routing in ENQUEUE
-    wcalls = [(s, t) for s, t in enq.calls() if F.callee_body(t) is with_d]
-    wo_refs = [(s, k, f) for s, k, f in F.fn_refs("^" + re.escape(without_d.name) + "$") if F.root_fn(s.body) is F.root_fn(enq)]
-    R.check(len(wcalls) == 1 and len(wo_refs) == 1, "routing-sites", enq, "", f"with_deadline calls: {len(wcalls)}, without_deadline refs: {len(wo_refs)}")
-    if len(wcalls) == 1 and len(wo_refs) == 1:
+    fam = roles.family(F, enq)
+    wcalls = [(s, t) for fb in fam for s, t in fb.calls() if F.callee_body(t) is with_d]
+    fam_keys = {fb.key for fb in fam}
+    wo_refs = [(s, k, f) for s, k, f in F.fn_refs("^" + re.escape(without_d.name) + "$") if s.body.key in fam_keys]
+    R.check(len(wcalls) == 1 and len(wo_refs) == 1 and wcalls[0][0].body is wo_refs[0][0].body, "routing-sites", enq, "", f"with_deadline calls: {len(wcalls)}, without_deadline refs: {len(wo_refs)}")
+    if len(wcalls) == 1 and len(wo_refs) == 1 and wcalls[0][0].body is wo_refs[0][0].body:
+        enq = wcalls[0][0].body  # the body (ENQUEUE itself or a private helper of it) that routes entries
         s_w, t_w = wcalls[0]
         s_wo = wo_refs[0][0]
         def current_guard(site):
@@ -366,8 +385,7 @@ def r4(F, R):
         R.check(not reach_nonzero, "initial-entries-no-deadline", s_wo, "without_deadline only for None / current == 0",
                 "a retried entry (current != 0) can take the without_deadline route: its delay is ignored")
         # `now` is Instant::now() of the same call
-        nsl = A.slice_back(enq, [t_w["args"][1]])
-        R.check(nsl.has_call(r"Instant::now$"), "deadline-from-now", s_w, "now = Instant::now() taken in the same call", "the deadline is not stamped with Instant::now()")
+        R.check(A.depends_on_call(F, enq, t_w["args"][1], [r"Instant::now$"], fam), "deadline-from-now", s_w, "now = Instant::now() taken in the same call", "the deadline is not stamped with Instant::now()")
     # left_until_retry
     lur = [b for b in F.crate_bodies() if b.impl and b.impl.get("self_adt") == WD and not b.impl.get("trait")
            and b.locals[0] == "std::option::Option<std::time::Duration>"]
@@ -413,12 +431,12 @@ def r4(F, R):
                     "the minimum remaining delay is not recorded (min of the previous minimum and this entry's remaining time)")
     # EXECUTE sleeps on that minimum
     ex = roles.execute(F)
-    sleeps = [(b, s, t) for b in F.nested(ex) for s, t in b.calls(lambda t: callee_is(t, r"thread::sleep$"))]
+    exfam = roles.family(F, ex)
+    sleeps = [(b, s, t) for b in exfam for s, t in b.calls(lambda t: callee_is(t, r"thread::sleep$"))]
     R.check(len(sleeps) == 1, "sleep/found", ex, "", f"{len(sleeps)} thread::sleep sites")
     if len(sleeps) == 1:
         b, s, t = sleeps[0]
-        ds = A.deep_slice(F, b, [t["args"][0]])
-        R.check(any(st == aw.poll_site for st, _ in ds.calls), "sleep/on-min-deadline", s, "sleeps for the minimum returned by GET", "the idle sleep does not use the deadline returned by GET")
+        R.check(_depends_on_site(F, b, t["args"][0], aw.poll_site, exfam), "sleep/on-min-deadline", s, "sleeps for the minimum returned by GET", "the idle sleep does not use the deadline returned by GET")
     R.floor(12)
 
 
